@@ -41,6 +41,46 @@ partial def globalsOfList : List Expr → List String
   | e :: es => globalsOf e ++ globalsOfList es
 end
 
+/-- head and total number of arguments of an application spine whose head is a global -/
+partial def spineHead : Expr → Option (String × Nat)
+  | .app (.gvar g) args => some (g, args.length)
+  | .app f args => (spineHead f).map (fun (g, k) => (g, k + args.length))
+  | _ => none
+
+mutual
+/-- every application whose head is a global: (head, number of arguments) -/
+partial def appsOf : Expr → List (String × Nat)
+  | .lit _ | .var _ | .anon | .gvar _ => []
+  | .app f args =>
+    -- `(f a) b` is `f a b` (functions are curried): count the arguments along the whole spine
+    (match spineHead (.app f args) with | some p => [p] | none => []) ++ appsBelowSpine f ++ appsOfList args
+  | .binop _ a b => appsOf a ++ appsOf b
+  | .not e => appsOf e
+  | .letIn _ e b => appsOf e ++ appsOf b
+  | .seq a b => appsOf a ++ appsOf b
+  | .ite c t e => appsOf c ++ appsOf t ++ appsOf e
+  | .lam _ b => appsOf b
+  | .recf _ _ b => appsOf b
+  | .load t e => appsOf t ++ appsOf e
+  | .store d t v => appsOf d ++ appsOf t ++ appsOf v
+  | .tuple es => appsOfList es
+  | .forLoop c p b => appsOf c ++ appsOf p ++ appsOf b
+  | .fields fs => appsOfList (fs.map (·.2))
+  | .list es => appsOfList es
+partial def appsBelowSpine : Expr → List (String × Nat)
+  | .app f args => appsBelowSpine f ++ appsOfList args
+  | .gvar _ => []
+  | e => appsOf e
+partial def appsOfList : List Expr → List (String × Nat)
+  | [] => []
+  | e :: es => appsOf e ++ appsOfList es
+end
+
+/-- number of arguments a defined function takes (type parameters first, then the binders of its `rec:`) -/
+def declArity : Decl → Option (String × Nat)
+  | .func n tps (.recf _ ps _) => some (n, tps.length + ps.length)
+  | _ => none
+
 def declBody : Decl → Option Expr
   | .func _ _ b | .const _ b | .typeDef _ b | .notation _ b => some b
   | .struct _ fs => some (.fields fs)
@@ -85,6 +125,17 @@ def step (s : St) (ws : List String) : St × String :=
       let gs := (((declBody d).map globalsOf).getD []).eraseDups
       (s, "usesord " ++ (if gs.isEmpty then "-" else ",".intercalate gs))
     | none => (s, "unknown")
+  | ["arity"] =>
+    -- applications of functions defined in this file with another number of arguments than their definition takes
+    let ar := s.decls.filterMap declArity
+    let bad := s.decls.flatMap (fun d =>
+      match d.name?, declBody d with
+      | some n, some b => (appsOf b).filterMap (fun (g, k) =>
+          match ar.find? (·.1 == g) with
+          | some (_, want) => if k != want then some s!"{n}:{g}:{k}:{want}" else none
+          | none => none)
+      | _, _ => [])
+    (s, "arity " ++ (if bad.isEmpty then "-" else ",".intercalate bad.eraseDups))
   | ["others"] =>
     (s, "others " ++ (let ks := s.decls.filterMap (fun d => match d with | .other k => some k | _ => none); if ks.isEmpty then "-" else ",".intercalate ks))
   | ["uses", n] =>
@@ -93,14 +144,9 @@ def step (s : St) (ws : List String) : St × String :=
       let gs := dedupSorted (((declBody d).map globalsOf).getD [])
       (s, "uses " ++ (if gs.isEmpty then "-" else ",".intercalate gs))
     | none => (s, "unknown")
-  | "explore" :: fn :: args =>
-    -- all interleavings at synchronisation points: outcomes <states> <truncated 0|1> <hex of outcome>…
-    match args.mapM parseArg with
-    | none => (s, "bad-op")
-    | some vs =>
-      let r := exploreCall { decls := s.decls } 200000 1000000 fn vs
-      (s, s!"outcomes {r.states} {if r.truncated then 1 else 0} " ++ " ".intercalate (r.outcomes.reverse.map (fun o => hexOrDash o.toUTF8.toList)))
-  | "eval" :: fn :: args =>
+  | op :: fn :: args =>
+    if op != "explore" && op != "explore-strict" && op != "eval" then (s, "bad-op") else
+    if op == "eval" then
     match args.mapM parseArg with
     | none => (s, "bad-op")
     | some vs =>
@@ -109,6 +155,14 @@ def step (s : St) (ws : List String) : St × String :=
       | .stuck why => (s, "stuck " ++ hexOrDash why.toUTF8.toList)
       | .deadlock => (s, "deadlock")
       | .outOfFuel => (s, "fuel")
+    else
+    -- all interleavings at synchronisation points: outcomes <states> <truncated 0|1> <hex of outcome>…
+    -- (explore-strict: condition waits return only after a signal/broadcast, as Go's sync.Cond)
+    match args.mapM parseArg with
+    | none => (s, "bad-op")
+    | some vs =>
+      let r := exploreCall { decls := s.decls } 200000 1000000 fn vs (op == "explore-strict")
+      (s, s!"outcomes {r.states} {if r.truncated then 1 else 0} " ++ " ".intercalate (r.outcomes.reverse.map (fun o => hexOrDash o.toUTF8.toList)))
   | _ => (s, "bad-op")
 
 end Driver.GL
